@@ -170,6 +170,13 @@ def _get(name):
         rm = RefModel(roles=list(MINI['roles']) + [':inst'], normalizations=MINI['normalizations'],
                       reifications=MINI['reifications'], name=name)
         e = (name, m, rm, None)
+    elif name == 'both':
+        # a table that defines a role *and* its -of form (and a pattern that matches both): neither is
+        # ever an inversion of the other
+        spec = {'roles': {':x': {}, ':x-of': {}, ':r0': {}, ':w(-of)?': {}, ':k': {}},
+                'normalizations': {':k-of': ':r0'}, 'reifications': []}
+        m, rm = from_spec(spec, name)
+        e = (name, m, rm, spec)
     elif name == 'mini':
         m, rm = from_spec(MINI, name)
         e = (name, m, rm, MINI)
